@@ -440,6 +440,21 @@ def master_cell(cell):
             bad.append(("hung-worker-aborted-late:master-woken-every-%.1fs" % period, "timeout=%d: SIGABRT %.2f s after the hang" % (T, abrts[0][0] - t0)))
         elif abrts[0][0] - t0 < T - 1e-6:
             bad.append(("hung-worker-aborted-early", "timeout=%d: SIGABRT only %.2f s after the last heartbeat" % (T, abrts[0][0] - t0)))
+    elif kind == "clock-step":
+        # the wall clock is stepped while healthy workers idle and while one worker hangs
+        _, T, step = cell
+        script = [("tick",)] * 2 + [("clock-step", step)] + [("tick",)] * (T + 2) + [("hang", 0, "app"), ("clock-step", -step)] + [("tick",)] * (T + 6)
+        k, o = master_run(T, "worker-timeout", 0.0, 0.0, script, abrt="die", workers=2)
+        t_hang = 1000.0 + 2 + T + 2
+        early = [x for x in k.kills if x[2] in (signal.SIGABRT, signal.SIGKILL) and x[0] < t_hang + T - 1e-6]
+        late = [x for x in k.kills if x[1] == 101 and x[2] == signal.SIGABRT and x[0] >= t_hang]
+        if early:
+            bad.append(("false-kill:wall-clock-step", "timeout=%d, wall clock stepped by %+d s at t=+2: signal %d to worker %d at t=+%.2f although every worker was healthy" % (
+                T, step, early[0][2], early[0][1], early[0][0] - 1000.0)))
+        elif not late:
+            bad.append(("hung-worker-not-aborted:wall-clock-step", "timeout=%d: wall clock stepped by %+d s right after a worker hung; no SIGABRT within %d s" % (T, -step, T + 6)))
+        elif late[0][0] - t_hang > T + 2.0 + 1e-6:
+            bad.append(("hung-worker-aborted-late:wall-clock-step", "SIGABRT %.2f s after the hang" % (late[0][0] - t_hang)))
     elif kind == "reload":
         _, T1, T2, phase = cell
         ticks = int(max(T1, T2) + 4)
@@ -502,6 +517,11 @@ def tmp_roundtrip():
         @staticmethod
         def monotonic():
             return T_.now
+
+        @staticmethod
+        def time():
+            # the wall clock is a different clock (and can be stepped): the protocol is defined on the monotonic one
+            return T_.now + 1700000000.0
     saved = WT.time
     WT.time = T_
     try:
@@ -513,6 +533,10 @@ def tmp_roundtrip():
                     t.notify()
                     got = t.last_update()
                     n += 1
+                    if abs(got - (T_.now + 1700000000.0)) < 1.0:
+                        bad.append(("heartbeat-stamped-with-wall-clock", "notify() at monotonic time %.3f (wall clock %.3f): last_update() reports %.3f - a stepped wall clock "
+                                    "would make a healthy worker look hung or a hung one look alive" % (T_.now, T_.now + 1700000000.0, got)))
+                        return bad, n
                     if abs(got - T_.now) > 1e-3:
                         bad.append(("heartbeat-timestamp-inexact", "notify() at monotonic time %.3f, last_update() reports %.3f: the worker looks %.3f s more silent than it is" % (
                             T_.now, got, T_.now - got)))
@@ -550,6 +574,9 @@ def master_cells(gaps, thorough):
         cells.append(("reload-hung", a, b, 0.0))
     for T in ((1, 2, 3) if thorough else (2,)):
         cells.append(("scan-race", T))
+    for T in (2, 5):
+        for step in (3600, -3600, 30, -30):
+            cells.append(("clock-step", T, step))
     for T in (1, 2, 3, 5):
         for wake in ("usr1", "sibling-exit", "ttin-ttou"):
             for period in ((0.5, 0.3, 0.9) if thorough else (0.5,)):
